@@ -261,6 +261,9 @@ where
         transport.send(frame).await?;
 
         let mut sasl_acceptor = self.sasl_acceptor.clone();
+        // The exchange is one init followed by responses: anything out of turn
+        // (a second init, a response before the init) fails the negotiation
+        let mut init_received = false;
         loop {
             let frame = match transport.next().await.ok_or_else(|| {
                 OpenError::Io(io::Error::new(
@@ -268,8 +271,13 @@ where
                     "Expecting SASL frames",
                 ))
             })?? {
-                sasl::Frame::Init(init) => sasl_acceptor.on_init(init),
-                sasl::Frame::Response(response) => sasl_acceptor.on_response(response),
+                sasl::Frame::Init(init) if !init_received => {
+                    init_received = true;
+                    sasl_acceptor.on_init(init)
+                }
+                sasl::Frame::Response(response) if init_received => {
+                    sasl_acceptor.on_response(response)
+                }
                 _ => {
                     let outcome = SaslOutcome {
                         code: SaslCode::Sys,
